@@ -428,11 +428,78 @@ pub fn prop(tier: Tier, seed: u64) -> Prop {
         ctx.nontrivial += 1;
     }).isolated());
 
+    // ---- model: the quantisation the error bound relies on. The bound of the other spaces takes the
+    // precision p from the implementation; here p itself is judged: every coefficient is the f64
+    // weight rounded to nearest at scale 2^p, fits its word, and p is as large as that word allows
+    // (i16 for 8-bit data with p <= 21, i32 for 16-bit data with p <= 45).
+    {
+        let pairs = crate::props::c10::model_pairs(tier);
+        let dimsq = vec![pairs.len() as u64, 7, 2];
+        let dq = dimsq.clone();
+        p.spaces.push(Space::new("model: coefficient quantisation (round-to-nearest at scale 2^p, p maximal for the coefficient word) for every geometry x filter x CROP1", product(&dimsq), move |idx, ctx| {
+            let mut d = [0usize; 3];
+            decode(idx, &dq, &mut d);
+            let ((n_in, n_out), f, adaptive) = (pairs[d[0]], FILT[d[1]], d[2] == 0);
+            ctx.sample(|| json!({"n_in": n_in, "n_out": n_out, "filter": format!("{:?}", f), "adaptive": adaptive, "crops": "CROP1(n_in)"}));
+            if ctx.describe_only {
+                return;
+            }
+            for crop in crate::props::c10::model_crops(n_in) {
+                let dump = crate::coef::dump(&crate::coef::Geo { n_in, crop, n_out, f, adaptive }, true, true);
+                ctx.ops += dump.bounds.len() as u64;
+                ctx.nontrivial += 1;
+                let mut wmax = f64::NEG_INFINITY;
+                let mut wabs: f64 = 0.0;
+                let mut finite = true;
+                for j in 0..dump.bounds.len() {
+                    for &w in crate::coef::weights(&dump, j).1 {
+                        finite &= w.is_finite();
+                        wmax = wmax.max(w);
+                        wabs = wabs.max(w.abs());
+                    }
+                }
+                if !finite || dump.bounds.is_empty() || wabs == 0.0 {
+                    ctx.note("geometries without a defined weight (empty or non-finite windows)", 1);
+                    continue;
+                }
+                let det = |what: &str, extra: serde_json::Value| json!({"n_in": n_in, "crop": [crop.start, crop.len], "n_out": n_out, "filter": format!("{:?}", f), "adaptive": adaptive, "largest_weight": wmax, "precision16": dump.precision16, "precision32": dump.precision32, "what": what, "more": extra});
+                for (bits, p, cap, word) in [(16u32, dump.precision16 as i32, 21i32, 15i32), (32, dump.precision32 as i32, 45, 31)] {
+                    // (a) round to nearest at scale 2^p
+                    let scale = 2f64.powi(p);
+                    let mut worst: Option<(usize, usize, f64, i64)> = None;
+                    for j in 0..dump.bounds.len() {
+                        let (_, ws) = crate::coef::weights(&dump, j);
+                        let ks: Vec<i64> = if bits == 16 { dump.chunks16[j].1.iter().map(|k| *k as i64).collect() } else { dump.chunks32[j].1.iter().map(|k| *k as i64).collect() };
+                        for (i, (&w, &k)) in ws.iter().zip(ks.iter()).enumerate() {
+                            let fits = (w * scale).abs() < 2f64.powi(word);
+                            if fits && (k as f64 - w * scale).abs() > 0.5 + 1e-9 * (w * scale).abs() {
+                                worst = Some((j, i, w, k));
+                            }
+                        }
+                    }
+                    if let Some((j, i, w, k)) = worst {
+                        ctx.violation(format!("C01|model|{}-bit table|coefficient is not the weight rounded to nearest at scale 2^p", bits), || det("rounding", json!({"sample": j, "tap": i, "weight": w, "coefficient": k})));
+                    }
+                    // (b) p is maximal: one more bit would not fit the coefficient word
+                    let next = |w: f64| (w * 2f64.powi(p + 1)).round() >= 2f64.powi(word);
+                    if p < cap && !(next(wmax) || next(wabs)) {
+                        ctx.violation(format!("C01|model|{}-bit table|precision is lower than the coefficient word allows (coarser quantisation than documented)", bits), || det("precision", json!({"cap": cap})));
+                    }
+                    if p > cap {
+                        ctx.violation(format!("C01|model|{}-bit table|precision above the accumulator head-room cap", bits), || det("precision", json!({"cap": cap})));
+                    }
+                }
+                ctx.class(mix(mix(d[1] as u64, d[2] as u64), mix(dump.precision16 as u64, dump.precision32 as u64)));
+                ctx.outcome(mix(dump.precision16 as u64, dump.precision32 as u64));
+            }
+        }).isolated());
+    }
+
     p.rule = "1-D: every (n_in,n_out) in (1..N)^2 x CROP1(n_in) (13 members incl. fractional, sub-pixel and edge-flush boxes) x 7 filters x {Convolution, Interpolation}, each executed for all 13 pixel types x back-ends x both orientations on content rows {impulse at every position, constants, adv+/-(j) for every output sample, extremes, lcg}; long kernels n_in up to 4097; 2-D: every (w_in,h_in,w_out,h_out) in (1..M)^4 x 5 crop pairs x 35 algorithms (incl. SuperSampling m=1,2,3) x 3 contents x 13 types x back-ends, both pass orders accepted. Oracle: ideal resampler in f64 interval arithmetic, bound 1/2 + Σ|x|2^-(p+1) per pass (p read from the implementation), 4 f32 ulps for floats".into();
     p.bounds = json!({"N": n, "M": m, "lcg_rows": lcg_rows, "long_n_in": long_in});
     p.assumptions = vec![
         "fixed LCG streams are members of the content alphabet, not samples of a distribution".into(),
-        "the quantisation term uses the precision the implementation reports through the hook".into(),
+        "the quantisation term uses the precision the implementation reports through the hook; the model space judges that precision itself (round to nearest, maximal for the i16 / i32 coefficient word, caps 21 / 45)".into(),
         "an axis whose destination size equals an integer-aligned crop is a copy (C12), not a filter".into(),
     ];
     p
